@@ -27,6 +27,14 @@
 //! must come from an own unicast address. `twonet` and `routing` also send to off-link unicast
 //! destinations whose host part is all ones / all zeros under our masks (/24, /20).
 //!
+//! Validity of NDISC messages (configuration `hoplimit`, IPv6 media): NA (solicited/unsolicited,
+//! Override set/clear) and NS with a source link-layer option that carry a neighbor's or the
+//! gateway's IPv6 source and a DIFFERENT hardware address, with hop limit 64 or 1 (forwarded
+//! from off-link), ICMPv6 code 1 or a bad checksum, teach the model nothing (RFC 4861 7.1.1 /
+//! 7.1.2: silently discard); the same messages with hop limit 255 are the ordinary
+//! ReplyAlt / NaNoOverride / RequestAlt / Announce events. Using such an address shows up as
+//! `C16/hwaddr/<med>/ineligible-hop-limit-not-255` (resp. `-icmp-code-not-0`, `-bad-checksum`).
+//!
 //! Lenient readings (statement leaves room; each can only accept more behaviours):
 //!  * "confirmed": any eligible assertion, or any IP packet addressed to one of our unicast
 //!    addresses whose IP source is the neighbor and whose link-layer source equals the asserted
@@ -316,6 +324,26 @@ pub enum DiscKind {
     BcastHw,
     /// reply asserting a multicast hardware address
     McastHw,
+    /// IPv6 only: an NDISC message with the node's IPv6 source that did NOT originate on the
+    /// link: hop limit below 255 (a router forwarded it; link-layer source = a gateway),
+    /// addressed to our unicast address, announcing the node's alternative hardware address.
+    /// RFC 4861 7.1.1/7.1.2: MUST be silently discarded, so nothing is learned from it.
+    Forwarded { msg: FwdMsg, hop: u8 },
+    /// IPv6 only: NA(S|O) with hop limit 255 announcing the alternative address, but with ICMPv6
+    /// code 1 (`bad_csum` false) or a corrupted checksum (`bad_csum` true): same rule
+    Malformed { bad_csum: bool },
+}
+
+#[derive(Clone, Copy, Debug, PartialEq, Eq, PartialOrd, Ord, Hash)]
+pub enum FwdMsg {
+    /// NA, Solicited + Override
+    NaSolOv,
+    /// NA, Solicited only (taken by a cache that has no valid entry)
+    NaSolNoOv,
+    /// NA, Override only (unsolicited)
+    NaUnsolOv,
+    /// NS for our address with a source link-layer address option
+    Ns,
 }
 
 #[derive(Clone, Copy, Debug, PartialEq, Eq, PartialOrd, Ord, Hash)]
@@ -802,7 +830,7 @@ impl NeighH {
                     let mc = vec![0x01, 0x00, 0x5e, 0x00, 0x00, 0x01];
                     (stim::eth(&me, &tru, 0x0806, &stim::arp(2, &mc, &ip, &me, &mine)), Effect::Rejected(ip, mc, "nonunicast"))
                 }
-                DiscKind::NaNoOverride => return None,
+                DiscKind::NaNoOverride | DiscKind::Forwarded { .. } | DiscKind::Malformed { .. } => return None,
             };
             return Some((r.0, r.1, None));
         }
@@ -841,6 +869,29 @@ impl NeighH {
             DiscKind::BcastHw => {
                 let bad: Vec<u8> = if med.is_eth() { vec![0xff; 6] } else { vec![0xff, 0xff] };
                 (na_uni(&tru, &ip, 0x60, &bad), Effect::Rejected(ip.clone(), bad, "nonunicast"), Some((ip, tru)))
+            }
+            DiscKind::Forwarded { msg, hop } => {
+                // the last hop of a forwarded packet is a router: its link-layer source
+                let router = node_hw(med, if from == Node::G1 { Node::G2 } else { Node::G1 }, 0);
+                let body = match msg {
+                    FwdMsg::NaSolOv => stim::na(&ip, &mine, 0x60, &ip, Some(&alt)),
+                    FwdMsg::NaSolNoOv => stim::na(&ip, &mine, 0x40, &ip, Some(&alt)),
+                    FwdMsg::NaUnsolOv => stim::na(&ip, &mine, 0x20, &ip, Some(&alt)),
+                    FwdMsg::Ns => stim::ns(&ip, &mine, &mine, Some(&alt)),
+                };
+                let f = self.wrap_ip(&me, &router, &ip, &mine, 58, hop, &body);
+                (f, Effect::Rejected(ip.clone(), alt, "hop-limit-not-255"), Some((ip, router)))
+            }
+            DiscKind::Malformed { bad_csum } => {
+                let mut body = stim::na(&ip, &mine, 0x60, &ip, Some(&alt));
+                if bad_csum {
+                    body[2] ^= 0xff;
+                } else {
+                    body[1] = 1;
+                    stim::icmp6_fix(&ip, &mine, &mut body);
+                }
+                let f = self.wrap_ip(&me, &alt, &ip, &mine, 58, 255, &body);
+                (f, Effect::Rejected(ip.clone(), alt.clone(), if bad_csum { "bad-checksum" } else { "icmp-code-not-0" }), Some((ip, alt)))
             }
             DiscKind::McastHw => {
                 if !med.is_eth() {
@@ -1222,7 +1273,8 @@ impl NeighH {
             Effect::Definite(..) => "eligible_assertions",
             Effect::Optional(..) => "optional_assertions",
             Effect::Rejected(_, _, "offlink") => "ineligible_offlink",
-            Effect::Rejected(..) => "ineligible_nonunicast",
+            Effect::Rejected(_, _, "nonunicast") => "ineligible_nonunicast",
+            Effect::Rejected(..) => "ineligible_invalid_ndisc(hop limit / code / checksum)",
         });
         self.m.apply(effect, now);
         (self.ingress(frame, out), definite)
@@ -1622,6 +1674,32 @@ fn profiles(med: Med, slots: usize) -> Vec<(&'static str, usize, bool, Vec<Ev>, 
             Ev::Drain,
         ];
         out.push(("twonet", 2, false, a, 6, 8));
+    }
+    // IPv6: NDISC messages that must be silently discarded (hop limit 64 / 1, ICMPv6 code 1,
+    // bad checksum) carrying a neighbor's / the gateway's source and a different hardware address
+    if v6 {
+        let fwd = |from, msg, hop| disc(from, Forwarded { msg, hop });
+        let a = vec![
+            send(0, D::N1),
+            send(0, D::R1),
+            disc(N1, Reply),
+            disc(G1, Reply),
+            fwd(N1, FwdMsg::NaSolOv, 64),
+            fwd(N1, FwdMsg::NaSolOv, 1),
+            fwd(N1, FwdMsg::NaSolNoOv, 64),
+            fwd(N1, FwdMsg::NaSolNoOv, 1),
+            fwd(N1, FwdMsg::NaUnsolOv, 64),
+            fwd(N1, FwdMsg::NaUnsolOv, 1),
+            fwd(N1, FwdMsg::Ns, 64),
+            fwd(N1, FwdMsg::Ns, 1),
+            fwd(G1, FwdMsg::NaSolOv, 64),
+            fwd(G1, FwdMsg::Ns, 1),
+            disc(N1, Malformed { bad_csum: false }),
+            disc(N1, Malformed { bad_csum: true }),
+            Ev::Advance(61000),
+            Ev::Poll,
+        ];
+        out.push(("hoplimit", 1, false, a, 7, 9));
     }
     // overlapping routes with different expiries (60 s and 120 s), same and different gateways
     {
